@@ -527,6 +527,13 @@ def check_C11(ck):
     cases.append(("cancel", "pairprod %s %s %s %s" % (g1.A(g1.C.mul(P, a)), g2.A(Qp), g1.A(g1.C.neg(g1.C.mul(P, a))), g2.A(Qp)))); exp.append(O.show_f12(O.F12_ONE))
     b = rng.randrange(1, R)
     cases.append(("cancel", "pairmulti %s;%s %s;%s" % (g1.A(g1.C.mul(g1.gen, a)), g1.A(g1.C.mul(g1.gen, b)), g2.A(g2.C.mul(g2.gen, b)), g2.A(g2.C.mul(g2.gen, R - a))))); exp.append(O.show_f12(O.F12_ONE))
+    # slice helper with lists of different lengths: more G2 than G1 points -> product over the G1 list; fewer -> panic
+    if 0 in val and 1 in val:
+        cases.append(("multi/more-q-than-p", "pairmulti %s %s;%s" % (g1.A(pool[0][0]), g2.A(pool[0][1]), g2.A(pool[1][1])))); exp.append(O.show_f12(val[0]))
+        cases.append(("multi/more-q-than-p", "pairmulti %s;%s %s;%s;%s" % (g1.A(pool[0][0]), g1.A(pool[1][0]), g2.A(pool[0][1]), g2.A(pool[1][1]), g2.A(pool[0][1])))); exp.append(O.show_f12(O.f12_mul(val[0], val[1])))
+        cases.append(("multi/fewer-q-than-p", "pairmulti %s;%s %s" % (g1.A(pool[0][0]), g1.A(pool[1][0]), g2.A(pool[0][1])))); exp.append("PANIC")
+        cases.append(("multi/empty-q", "pairmulti %s -" % g1.A(pool[0][0]))); exp.append("PANIC")
+        cases.append(("multi/empty-p", "pairmulti - %s" % g2.A(pool[0][1]))); exp.append(O.show_f12(O.F12_ONE))
     # the pair list handed to miller_loop as lazy iterators (filter / skip_while / chain: inexact size hints)
     for ln in (1, 3, 4):
         idx = [rng.randrange(len(pool)) for _ in range(ln)]
